@@ -86,6 +86,32 @@ class C19(Prop):
         if not err_first:
             corpus()
             cur = first
+            if len(cur) >= 2 and rng.random() < 0.25:
+                # a node dies, failover takes it out of rotation, then the cluster is scaled down without it;
+                # later (after dead_timeout) it must not come back into rotation
+                victim = rng.choice(cur)
+                vnames = ["%s:%s" % (ip(i) if use_vpc else fqdn(i), port(i)) for i in cur]
+                vname = "%s:%s" % (ip(victim) if use_vpc else fqdn(victim), port(victim))
+                owned = [k for k in keys if refhash.owner(vnames, k) == vname]
+                if owned:
+                    steps.append({"t": "node", "id": victim + 1, "health": rng.choice(["refuse", "reset"])})
+                    for _ in range(5):
+                        steps.append({"t": "call", "m": "get", "a": [E(rng.choice(owned))], "k": {}, "tag": "preamble"})
+                        steps.append({"t": "advance", "dt": 1.5})
+                    new = [i for i in cur if i != victim]
+                    version += 1
+                    steps.append({"t": "cluster", "node": 0, "cluster": self.cluster(version, new)})
+                    steps.append({"t": "call", "m": "reconfigure_nodes", "a": [], "k": {}, "tag": "reconf", "adv": new})
+                    cur = new
+                    hist.append(new)
+                    corpus()
+                    steps.append({"t": "advance", "dt": rng.choice([61, 70, 130])})
+                    corpus()
+                    if rng.random() < 0.5:
+                        steps.append({"t": "advance", "dt": 70})
+                        corpus()
+                    # the machine is repaired before it can be advertised again
+                    steps.append({"t": "node", "id": victim + 1, "health": "up"})
             for _ in range(rng.randint(1, 4)):
                 kind = rng.choice(["grow", "shrink", "shrink", "replace", "same", "error"])
                 if kind == "grow":
@@ -115,6 +141,17 @@ class C19(Prop):
                 corpus()
         return [{"property": self.id, "world": w, "steps": steps, "first": None if err_first else first}]
 
+    def advertised_before(self, scn, step):
+        """Node indexes the endpoint advertises when step `step` runs (derived from the cluster steps, so the
+        answer stays right when the minimiser drops steps)."""
+        cl = scn["world"]["nodes"][0]["opts"].get("cluster")
+        for st in scn["steps"][:step]:
+            if st["t"] == "cluster":
+                cl = st["cluster"]
+        if not isinstance(cl, dict):
+            return None
+        return [int(n[0].split(".")[2]) - 1 for n in cl["nodes"]]
+
     def judge(self, scn, res):
         out = []
         w = res.world
@@ -136,7 +173,7 @@ class C19(Prop):
                 out.append(viol("socket-to-unadvertised-node-left-open", rec,
                                 disc="endpoint" if any(t == 0 for _, t in bad) else "cache-node", socks=bad[:4]))
 
-        adv = scn["first"]
+        adv = self.advertised_before(scn, 0)
         if adv is None:
             if init.outcome != "raise" or not isinstance(init.exc, MUCE):
                 out.append(viol("error-endpoint-not-reported-as-memcached-error", init, disc="constructor",
@@ -152,6 +189,10 @@ class C19(Prop):
                 continue
             st = scn["steps"][rec.step]
             tag = st.get("tag")
+            if tag == "preamble":
+                continue
+            if tag in ("reconf", "reconf-error"):
+                tag = "reconf" if self.advertised_before(scn, rec.step) is not None else "reconf-error"
             if tag == "reconf-error":
                 if rec.outcome != "raise" or not isinstance(rec.exc, MUCE):
                     out.append(viol("error-endpoint-not-reported-as-memcached-error", rec, disc="reconfigure",
@@ -162,10 +203,18 @@ class C19(Prop):
                     out.append(viol("discovery-failed", rec, disc="reconfigure", got=rec.enc_outcome(),
                                     pieces=rec.pieces[:20]))
                     break
-                adv = st["adv"]
+                adv = self.advertised_before(scn, rec.step)     # the truth is what the endpoint advertised
                 check_sockets(rec, adv)
                 continue
             names = names_of(adv)
+            down = {st2["id"] for st2 in () }
+            health = {}
+            for st2 in scn["steps"][:rec.step]:
+                if st2["t"] == "node":
+                    health[st2["id"]] = st2.get("health", "up")
+            adv_down = [i for i in adv if health.get(i + 1, "up") != "up"]
+            if rec.outcome == "raise" and adv_down and isinstance(rec.exc, OSError):
+                continue      # an advertised node is really down: its connection error is the expected outcome
             if rec.outcome == "raise":
                 out.append(viol("routed-call-raised", rec, disc=type(rec.exc).__name__, exc=type(rec.exc).__name__,
                                 msg=str(rec.exc)[:100], advertised=sorted(names)))
@@ -219,7 +268,8 @@ class C19(Prop):
 
     def probe_names(self):
         return ("scale-down-then-traffic", "scale-up-then-traffic", "config-reply-split-in-many-pieces",
-                "endpoint-answers-ERROR", "use_vpc-off-fqdn", "six-nodes", "single-node")
+                "endpoint-answers-ERROR", "use_vpc-off-fqdn", "six-nodes", "single-node",
+                "dead-node-scaled-away-then-dead_timeout-elapsed")
 
     def probes(self, scn, res):
         p = {}
@@ -242,6 +292,8 @@ class C19(Prop):
                 p["endpoint-answers-ERROR"] = 1
         if scn["first"] is None:
             p["endpoint-answers-ERROR"] = 1
+        if any(st.get("tag") == "preamble" for st in scn["steps"]):
+            p["dead-node-scaled-away-then-dead_timeout-elapsed"] = 1
         for c in res.calls:
             if c.method in ("__init__", "reconfigure_nodes") and len(c.pieces) > 5:
                 p["config-reply-split-in-many-pieces"] = 1
